@@ -3,29 +3,30 @@
    of a lemma proved in C10/Lemmas.v and followed by its assumptions.
 
    The model (C10/Model.v) is the webhook of pkg/webhooks/admission/queues/validate
-   AFTER the fix commit recorded in docs/notes/C10.md. *)
+   AFTER the three fix commits recorded in docs/notes/C10.md. *)
 From stdpp Require Import gmap.
 From Coq Require Import ZArith.
 From V Require Import Base.Res C10.Model C10.Laws C10.Lemmas.
 Open Scope Z_scope.
 
 (* --- main theorem: for every initial queue set satisfying the invariant and EVERY history of
-   create / update (incl. re-parenting and resource edits) / delete requests and status updates
-   (the root queue itself never being given a parent), the queue set produced by applying the
-   admitted ones still satisfies it:
-     ShapeInv     root exists; every other queue reaches root by parent links in at most
-                  MaxQueueDepth links (hence: every named parent exists, no cycles);
+   create / update (incl. re-parenting and resource edits) / delete requests and status updates,
+   the queue set produced by applying the admitted ones still satisfies it:
+     ShapeInv     root exists and has no parent; every other queue reaches root by parent links in
+                  at most MaxQueueDepth links (hence: every named parent exists, no cycles);
      PerQueueInv  all amounts >= 0, guarantee <= deserved (deserved set wherever guarantee is),
                   deserved <= capability wherever capability is set;
      SumInv       for every parent other than root and every dimension the scheduler's Resource
                   keeps: sum of the children's guarantee <= parent's guarantee, same for deserved
-                  (an unset amount counts as 0). --- *)
+                  (an unset amount counts as 0);
+     CapInv       a positive capability of a queue is <= the capability of the nearest proper
+                  ancestor below root that sets that dimension. --- *)
 Theorem C10_admitted_history_preserves_tree : forall c rs Q0,
-  1 <= max_depth c -> TreeInv c Q0 -> Forall req_wf rs -> TreeInv c (run_history c Q0 rs).
+  1 <= max_depth c -> TreeInv c Q0 -> TreeInv c (run_history c Q0 rs).
 Proof. exact tree_history. Qed.
 Print Assumptions C10_admitted_history_preserves_tree.
 
-(* the shape part needs no restriction on the requests at all *)
+(* the shape part alone *)
 Theorem C10_shape_history : forall c Q0 rs,
   1 <= max_depth c -> ShapeInv c Q0 -> ShapeInv c (run_history c Q0 rs).
 Proof. exact shape_history. Qed.
@@ -56,19 +57,11 @@ Proof. exact QueueOk_order. Qed.
 Print Assumptions C10_queue_order.
 
 (* --- capability against the nearest ancestor that sets the dimension: preserved by every
-   admitted request EXCEPT the re-parenting of a queue that has children --- *)
+   admitted request, re-parenting of whole subtrees included (second fix) --- *)
 Theorem C10_capability_step : forall c Q r,
-  1 <= max_depth c -> ShapeInv c Q -> CapInv Q -> ~ moves_subtree Q r ->
-  CapInv (apply_if_admitted c Q r).
+  1 <= max_depth c -> ShapeInv c Q -> CapInv Q -> CapInv (apply_if_admitted c Q r).
 Proof. exact cap_step. Qed.
 Print Assumptions C10_capability_step.
-
-(* ... and really broken by that one (known finding C10-reparent-subtree-capability) *)
-Theorem C10_capability_reparent_refuted :
-  exists c Q r, TreeInv c Q /\ CapInv Q /\ 1 <= max_depth c /\ req_wf r /\ moves_subtree Q r /\
-                verdict_of c Q r = VAllowed /\ ~ CapInv (apply_if_admitted c Q r).
-Proof. exact cap_reparent_refuted. Qed.
-Print Assumptions C10_capability_reparent_refuted.
 
 (* --- deletion --- *)
 Theorem C10_delete_guard : forall c Q n,
@@ -90,12 +83,15 @@ Theorem C10_checker_sound : forall c Q, tree_okb c Q = true -> TreeInv c Q.
 Proof. exact tree_okb_sound. Qed.
 Print Assumptions C10_checker_sound.
 
-Theorem C10_caps_checker_sound : forall Q, caps_okb Q = true -> CapInv Q.
-Proof. exact caps_okb_sound. Qed.
-Print Assumptions C10_caps_checker_sound.
+(* --- the record of the defects: the validation as it was BEFORE the fixes admits a re-parenting
+   that closes a cycle, one that pushes a moved subtree beyond the depth limit (F3, first fix), and
+   one that puts a descendant under an ancestor of smaller capability (second fix) --- *)
+Theorem C10_precap_reparent_refuted :
+  exists c Q n s o, TreeInv c Q /\ 1 <= max_depth c /\ Q !! n = Some o /\
+                    admit_cu_precap c Q n s (Some o) = VAllowed /\ ~ CapInv (<[n := s]> Q).
+Proof. exact precap_reparent_refuted. Qed.
+Print Assumptions C10_precap_reparent_refuted.
 
-(* --- the record of defect F3: the validation as it was BEFORE the fix admits a re-parenting
-   that closes a cycle, and one that pushes a moved subtree beyond the depth limit --- *)
 Theorem C10_prefix_cycle_refuted :
   exists c Q n s, TreeInv c Q /\ 1 <= max_depth c /\ validate_hier_prefix c Q n s = VAllowed /\
                   ~ ShapeInv c (<[n := s]> Q).
@@ -111,9 +107,7 @@ Print Assumptions C10_prefix_depth_refuted.
 (* --- non-vacuity: a concrete three-level hierarchy satisfies every hypothesis, and a
    history over it exercises admitted and refused requests of every kind --- *)
 Example C10_hypotheses_satisfiable :
-  1 <= max_depth ex_cfg /\ TreeInv ex_cfg ex_Q /\ CapInv ex_Q /\ Forall req_wf ex_history /\
-  verdicts ex_cfg ex_Q ex_history = [VAllowed; VSiblingSum; VAllowed; VCycle; VAllowed; VDelChildren].
-Proof.
-  split; [done|]. split; [exact (proj1 ex_tree_inv)|]. split; [exact (proj2 ex_tree_inv)|].
-  split; [exact ex_history_wf|exact ex_history_verdicts].
-Qed.
+  1 <= max_depth ex_cfg /\ TreeInv ex_cfg ex_Q /\
+  verdicts ex_cfg ex_Q ex_history =
+  [VAllowed; VSiblingSum; VAllowed; VCycle; VRootParent; VAllowed; VAllowed; VCapAncestor; VAllowed; VDelChildren].
+Proof. split; [done|]. split; [exact ex_tree_inv|exact ex_history_verdicts]. Qed.
